@@ -65,6 +65,7 @@ type Result struct {
 	Kinds        map[string]int64
 	WithPhi      int
 	WithRecover  int
+	Unspecified  int // records not compared because the language leaves the compiled program's behaviour open
 	WithSplit    int
 	LiftChanged  map[string]bool // function name -> lifted stream differs from naive
 	ExecutedFns  map[string]bool // functions (by ir name) entered in lifted mode
@@ -151,13 +152,14 @@ func panicClass(p irinterp.Iface) string {
 type interpResult struct {
 	recs     map[string]string
 	unsup    map[string]string // key -> reason (inconclusive)
+	unspec   map[string]string // key -> reason (the language leaves the compiled program's behaviour open)
 	kinds    map[string]int64
 	executed map[*ir.Function]int
 	fatal    string
 }
 
 func interpretAll(pkg *ir.Package, prog *gen.Program) interpResult {
-	res := interpResult{recs: map[string]string{}, unsup: map[string]string{}}
+	res := interpResult{recs: map[string]string{}, unsup: map[string]string{}, unspec: map[string]string{}}
 	m := irinterp.New(pkg)
 	res.kinds = m.Kinds
 	res.executed = m.Executed
@@ -193,7 +195,12 @@ func interpretAll(pkg *ir.Package, prog *gen.Program) interpResult {
 					postIdx = append(postIdx, i)
 				}
 			}
+			m.Unspecified = ""
 			out := m.Call(fn, args)
+			if m.Unspecified != "" {
+				res.unspec[key] = m.Unspecified
+				continue
+			}
 			if out.Err != nil {
 				if u, ok := out.Err.(*irinterp.Unsupported); ok {
 					res.unsup[key] = u.What
@@ -248,6 +255,42 @@ func firstLine(s string) string {
 		return s[:i]
 	}
 	return s
+}
+
+var runtimePanicClasses = map[string]bool{"nilderef": true, "index": true, "slicebounds": true, "divzero": true, "typeassert": true, "nilmap": true, "negshift": true, "slice2array": true, "makeslice": true, "uncomparable": true}
+
+// twoRuntimePanics: the expected record and all IR records (which agree with
+// each other) end in run-time panics of different classes and agree on
+// everything else.
+func twoRuntimePanics(exp string, got map[string]string) bool {
+	strip := func(rec string) (class, rest string) {
+		var keep []string
+		for _, l := range strings.Split(rec, "\n") {
+			if strings.HasPrefix(l, "panic ") {
+				class = strings.TrimPrefix(l, "panic ")
+				continue
+			}
+			keep = append(keep, l)
+		}
+		return class, strings.Join(keep, "\n")
+	}
+	ec, er := strip(exp)
+	if !runtimePanicClasses[ec] {
+		return false
+	}
+	first := ""
+	for _, g := range got {
+		gc, gr := strip(g)
+		if !runtimePanicClasses[gc] || gc == ec || gr != er {
+			return false
+		}
+		if first == "" {
+			first = g
+		} else if g != first {
+			return false
+		}
+	}
+	return first != ""
 }
 
 // diffKind names the first field in which two records differ.
@@ -529,6 +572,10 @@ func CheckWithTruth(idx int, prog *gen.Program, expOut string, err error) *Resul
 				}
 				continue
 			}
+			if _, ok := r.unspec[key]; ok {
+				res.Unspecified++
+				continue
+			}
 			g, ok := r.recs[key]
 			res.Compared++
 			if !ok {
@@ -546,6 +593,14 @@ func CheckWithTruth(idx int, prog *gen.Program, expOut string, err error) *Resul
 					kind = diffKind(exp[key], g)
 				}
 			}
+		}
+		if len(bad) == len(Modes) && kind == "panic" && twoRuntimePanics(exp[key], gotRec) {
+			// Both sides stop with a run-time panic, of different classes, after the same trace:
+			// one statement held two operations that panic (an index expression and a
+			// slice-to-array conversion, say), and the language does not order them.
+			res.Unspecified += len(bad)
+			res.Compared -= len(bad)
+			continue
 		}
 		if len(bad) > 0 {
 			mm := Mismatch{Key: key, Kind: kind, Modes: bad, Expected: exp[key], Got: gotRec}
@@ -746,6 +801,7 @@ func Run(r *vf.Run) {
 		r.Add("vectors", res.Vectors)
 		r.Add("functions_with_phi", res.WithPhi)
 		r.Add("functions_with_recover_block", res.WithRecover)
+		r.Add("records_not_compared_language_leaves_behaviour_open", res.Unspecified)
 		r.Add("functions_with_split_alloc", res.WithSplit)
 		compared += res.Compared
 		liftChanged += len(res.LiftChanged)
